@@ -208,7 +208,18 @@ def judge_ms(case, level):
     Fn, Xi, Phi, Lam = np.asarray(res.Fn_poles), np.asarray(res.Xi_poles), np.asarray(res.Phi_poles), np.asarray(res.Lambds)
     if not j.check(Phi.shape == (ordmax, ordmax + 1, lay["ntot"]), "table-shape", lambda: f"{Phi.shape}"):
         return j
+    for i_, (d_, rl_) in enumerate(zip(datasets, refl)):
+        mv_ = [c for c in range(d_.shape[1]) if c not in rl_]
+        j.check(np.array_equal(ms.data[i_]["ref"], d_[:, rl_].T) and np.array_equal(ms.data[i_]["mov"], d_[:, mv_].T), "data-mutated", lambda: f"dataset {i_}: the split data changed during the run")
     _judge_modes(j, S, Fn[:, ordmax], Xi[:, ordmax], Phi[:, ordmax, :], Lam[:, ordmax], tol, "table")
+    # a second run on the same multi-setup object must see the same data and give the same tables
+    snap = [(d["ref"].copy(), d["mov"].copy()) for d in ms.data]
+    r = sut(ms.run_all)
+    if j.check(not raised(r), "rerun-raises", lambda: f"{r!r}"):
+        res = alg.result
+        j.check(all(np.array_equal(d["ref"], a) and np.array_equal(d["mov"], b) for d, (a, b) in zip(ms.data, snap)), "data-mutated", "the multi-setup object's data changed during a run")
+        same = np.array_equal(np.asarray(res.Fn_poles), Fn, equal_nan=True) and np.array_equal(np.asarray(res.Phi_poles), Phi, equal_nan=True)
+        j.check(same, "rerun-differs", "a second run of the same algorithm on the same multi-setup object gives different pole tables")
     r = sut(ms.mpe, "a", sel_freq=[float(f) for f in S.fn], order=ordmax, rtol=1e-3)
     if j.check(not raised(r), "mpe-raises", lambda: f"{r!r}"):
         fn, xi, phi = np.asarray(res.Fn), np.asarray(res.Xi), np.asarray(res.Phi)
